@@ -1491,6 +1491,7 @@ package server
 //@   modifies all
 //@ func (*ReplicationClient).InitSync
 //@   requires self != nil
+//@   at call Reset assert C09.sync.load-failure-restarts: implies(calls(Load) == 1, self.aofLock == nil)
 //@   ensures C09.sync.incomplete-restarts: implies(!isnil(result) && calls(recvFiles) == 1 && !self.recvedFiles, self.aofLock == nil && forall(k, 0, 16, self.currentAofId[k] == 0))
 //@   modifies all
 
